@@ -274,5 +274,71 @@ def shapes(tier, warnings=('all', 'none')):
     add('type cycle', 'one defined type', wrap('TYPE t1 = t1;\nEND_TYPE;\n' + ent()))
     add('type cycle', 'two defined types', wrap('TYPE t1 = t2;\nEND_TYPE;\nTYPE t2 = t1;\nEND_TYPE;\n' + ent()))
     add('USE FROM itself', 'interface', wrap('USE FROM p;\n' + ent()))
+    # interface clauses: schema names are turned into file names (256-byte buffers) when the schema is not in the file
+    for n in (100, 245, 250, 251, 252, 255, 256, 300, 5000):
+        lab = size_label('schema name', n, (246,))
+        add('schema name of %d chars' % n, 'USE FROM unknown schema', wrap('USE FROM %s;\n' % X(n) + ent()), label=lab)
+        add('schema name of %d chars' % n, 'REFERENCE FROM unknown schema', wrap('REFERENCE FROM %s (y);\n' % X(n) + ent()), label=lab)
+    for k in (2, 3):
+        names = ['s%d' % i for i in range(k)]
+        for miss in ('USE', 'REFERENCE'):
+            t = ''
+            for i, nm in enumerate(names):
+                t += 'SCHEMA %s;\nUSE FROM %s;\n' % (nm, names[(i + 1) % k])
+                if i == k - 1:
+                    t += '%s FROM %s (nonexistent);\n' % (miss, names[0])
+                t += 'ENTITY e_%s;\n  a : INTEGER;\nEND_ENTITY;\nEND_SCHEMA;\n' % nm
+            add('%d schemas using each other in a cycle' % k, '%s FROM of an item none of them declares' % miss, t)
+        t = ''
+        for i, nm in enumerate(names):
+            t += 'SCHEMA %s;\nUSE FROM %s;\nENTITY e_%s;\n  a : INTEGER;\n  b : OPTIONAL e_%s;\nEND_ENTITY;\nEND_SCHEMA;\n' % (nm, names[(i + 1) % k], nm, names[(i + 1) % k])
+        add('%d schemas using each other in a cycle' % k, 'every item exists', t)
+    add('function with parameters referenced without arguments', 'RETURN expression',
+        wrap('FUNCTION g(n : INTEGER) : INTEGER;\n  RETURN (n);\nEND_FUNCTION;\nFUNCTION f(n : INTEGER) : INTEGER;\n  RETURN (g);\nEND_FUNCTION;\n' + ent()))
+    add('function with parameters referenced without arguments', 'where rule', wrap('FUNCTION g(n : INTEGER) : INTEGER;\n  RETURN (n);\nEND_FUNCTION;\n' + ent('WHERE\n  wr1 : g > 0;\n')))
+    add('function without parameters referenced without arguments', 'RETURN expression',
+        wrap('FUNCTION g : INTEGER;\n  RETURN (1);\nEND_FUNCTION;\nFUNCTION f(n : INTEGER) : INTEGER;\n  RETURN (g);\nEND_FUNCTION;\n' + ent()))
+    add('procedure referenced as a value', 'RETURN expression',
+        wrap('PROCEDURE pr(VAR v : INTEGER);\n  v := 1;\nEND_PROCEDURE;\nFUNCTION f(n : INTEGER) : INTEGER;\n  RETURN (pr);\nEND_FUNCTION;\n' + ent()))
+    # DERIVE initializers are re-quoted by exp2cxx (every backslash and newline doubles)
+    for n in (10, 5000, 9000, 10 ** 5):
+        add('string literal of %d backslashes' % n, 'derived attribute initializer',
+            wrap("ENTITY e;\n  a : STRING;\nDERIVE\n  d : STRING := '%s';\nEND_ENTITY;\n" % ('\\' * n)), label='string literal of backslashes')
+        add('expression of %d lines' % n, 'derived attribute initializer',
+            wrap("ENTITY e;\n  a : INTEGER;\nDERIVE\n  d : INTEGER := %s;\nEND_ENTITY;\n" % '\n+ '.join(['a'] * min(n, 20000))), label='expression of many lines')
+    # inheritance lattices: each level is a diamond over the previous one (the complex-entity expansion walks every path)
+    for d in (4, 10, 18, 26):
+        t = 'ENTITY t0;\n  a : INTEGER;\nEND_ENTITY;\n'
+        for i in range(d):
+            t += ('ENTITY l%d SUBTYPE OF (t%d);\nEND_ENTITY;\nENTITY r%d SUBTYPE OF (t%d);\nEND_ENTITY;\nENTITY t%d SUBTYPE OF (l%d, r%d);\nEND_ENTITY;\n'
+                  % (i, i, i, i, i + 1, i, i))
+        t += 'ENTITY z SUBTYPE OF (t%d);\nWHERE\n  wr1 : a > 0;\nEND_ENTITY;\n' % d
+        add('chain of %d inheritance diamonds' % d, 'entity', wrap(t), label='chain of 18 or more inheritance diamonds' if d >= 18 else 'chain of up to 17 inheritance diamonds')
+    # items of every kind declared in one schema, renamed there, and used from another schema of the same file
+    # (exp2cxx processes a multi-schema file in passes and waits for foreign items to be marked processed)
+    decls = {
+        'enumeration': 'TYPE k1 = ENUMERATION OF (x, y);\nEND_TYPE;\n',
+        'select': 'ENTITY m1;\n  q : INTEGER;\nEND_ENTITY;\nENTITY m2;\n  q : REAL;\nEND_ENTITY;\nTYPE k1 = SELECT (m1, m2);\nEND_TYPE;\n',
+        'simple defined type': 'TYPE k1 = REAL;\nEND_TYPE;\n',
+        'aggregate defined type': 'TYPE k1 = LIST [1:3] OF INTEGER;\nEND_TYPE;\n',
+        'entity': 'ENTITY k1;\n  q : INTEGER;\nEND_ENTITY;\n',
+    }
+    for kind, decl in sorted(decls.items()):
+        for depth in (0, 1, 2):
+            if kind == 'entity' and depth:
+                continue
+            ren = ''.join('TYPE k%d = k%d;\nEND_TYPE;\n' % (i + 2, i + 1) for i in range(depth))
+            item = 'k%d' % (depth + 1)
+            sb = 'SCHEMA b;\n%s%sEND_SCHEMA;\n' % (decl, ren)
+            for how in ('USE FROM b (%s);', 'REFERENCE FROM b (%s);', 'USE FROM b;', 'REFERENCE FROM b;'):
+                if how.startswith('USE') and kind != 'entity' and '(' not in how and False:
+                    continue
+                clause = how % item if '%s' in how else how
+                sa = 'SCHEMA a;\n%s\nENTITY ea;\n  col : %s;\n  cols : LIST [0:?] OF %s;\nEND_ENTITY;\nEND_SCHEMA;\n' % (clause, item, item)
+                for order, text in (('user first', sa + sb), ('declarer first', sb + sa)):
+                    add('%s renamed %d times in another schema of the file' % (kind, depth), '%s, %s' % (how.split(' b')[0] + (' (item)' if '%s' in how else ' (whole schema)'), order), text,
+                        label='item of another schema of the same file used as attribute type')
+    add('exppp -o --', 'two schemas in one file', 'SCHEMA a;\nENTITY ea;\n  x : INTEGER;\nEND_ENTITY;\nEND_SCHEMA;\nSCHEMA b;\nENTITY eb;\n  y : INTEGER;\nEND_ENTITY;\nEND_SCHEMA;\n',
+        ('exppp',), ('-o', '--'))
     add('USE FROM unknown schema', 'interface', wrap('USE FROM nowhere (x);\n' + ent()))
     return S
